@@ -23,6 +23,7 @@ CONSTANTS
   TermT = 5
   WaitTruthful = TRUE
   TermOwnTimeout = TRUE
+  ClosedGuard = TRUE
 INVARIANT TypeOK
 INVARIANT Inv_C05_Stream
 INVARIANT Inv_C05_Count
